@@ -1,4 +1,4 @@
-import EIO.Lemmas.SesStep
+import EIO.Lemmas.SesAcc
 /-
 flush / send / drain / packets / upgrade: the functions whose events need a guard.
 -/
@@ -39,25 +39,47 @@ theorem pr_flushF {w0 w : World} (f : Nat) (sid : Nat) (h : Pres w0 w) : Pres w0
     · rename_i hg
       have hnc : (w.sock sid).rs ≠ .closed := fun hc => hg (Or.inl hc)
       apply pr_ev
+      have hsz : sid < w.socks.size := by
+        apply Nat.lt_of_not_le; intro hle
+        apply hg; right; right
+        rw [sock_oob w sid hle]; rfl
       have core : Pres w0 ((trSend (((w.setSock sid fun s =>
           { s with wbuf := [], sentCb := s.sentCb ++ [s.packetsFn], packetsFn := [] }).sev sid
-            (.flush (w.sock sid).wbuf)).ev s!"srv:flush:s{sid}:{pktChars (w.sock sid).wbuf}")
+            (.flush (w.sock sid).wbuf (w.sock sid).packetsFn)).ev s!"srv:flush:s{sid}:{pktChars (w.sock sid).wbuf}")
             (w.sock sid).tr (w.sock sid).wbuf).sev sid .drain) := by
-        apply pr_sev _ _ rfl
+        apply pr_sev _ _ rfl rfl
         · simp [closedW, hnc]
         apply pr_trSend
         apply pr_ev
-        apply pr_sev _ _ rfl
-        · simp [closedW, hnc]
-        apply pr_setSock _ _ (by simp) (by simp) rfl rfl
-        · intro _ o
-          exact ⟨fun hc => absurd hc hnc, o.dc⟩
-        · exact h
+        refine pr_accStep1 sid _ _ rfl (by simp [closedW, hnc]) hsz rfl rfl rfl ?_ ?_ ?_ h
+        · intro o
+          exact ⟨fun hc => absurd hc hnc, o.dc, o.cu⟩
+        · intro a
+          obtain ⟨r1, e1, i1⟩ := a.pk
+          obtain ⟨r2, e2, i2⟩ := a.cb
+          obtain ⟨r3, e3, i3⟩ := a.run
+          have h1 := i1 hnc; have h2 := i2 hnc; have h3 := i3 hnc
+          subst h1; subst h2; subst h3
+          refine ⟨⟨[], ?_, fun _ => rfl⟩, ⟨[], ?_, fun _ => rfl⟩, ⟨_, ?_, fun _ => rfl⟩, ?_⟩
+          · rw [proj_snoc_self, proj_snoc_self, e1]; simp [fCreatedPkt, fFlushedPkt]
+          · rw [proj_snoc_self, proj_snoc_self, e2]; simp [fCreatedCb, fFlushedCb]
+          · rw [proj_snoc_self, proj_snoc_self, e3]; simp [fFlushedCb, fRanCb]
+          · unfold upgradeCount; rw [proj_snoc_self]; simpa [fUpgrade, upgradeCount] using a.up
+        · intro a b c _
+          obtain ⟨r1, e1, i1⟩ := a.pk
+          obtain ⟨r2, e2, i2⟩ := a.cb
+          have h1 := i1 hnc; have h2 := i2 hnc
+          subst h1; subst h2
+          unfold TightAt
+          constructor
+          · rw [proj_snoc_self, proj_snoc_self, e1]; simp [fCreatedPkt, fFlushedPkt]
+          · rw [proj_snoc_self, proj_snoc_self, e2]; simp [fCreatedCb, fFlushedCb]
       split
       · apply pr_closeTransportF
         apply pr_setSock _ _ (Nat.le_refl _) (Iff.rfl) rfl rfl
         · intro _ o
-          exact ⟨o.cb, fun hd => by cases hd⟩
+          exact ⟨o.cb, fun hd => (by cases hd), o.cu⟩
+        · intro _ a; exact a.congr Iff.rfl rfl rfl rfl rfl
         · exact core
       · exact core
 
@@ -72,13 +94,25 @@ theorem pr_sendPacket {w0 w : World} (sid : Nat) (p : Pkt) (cb : Option Nat) (h 
   split
   · exact h
   · rename_i hg
-    have hnc : (w.sock sid).rs ≠ .closed := fun hc => hg (Or.inr hc)
+    have hnc : (w.sock sid).rs ≠ .closed := fun hc => hg (Or.inr (Or.inl hc))
+    have hsz : sid < w.socks.size := Nat.lt_of_not_le (fun hle => hg (Or.inr (Or.inr hle)))
     apply pr_flush
-    refine pr_setSockSame _ _ ?hf ?h
-    case hf => intro s; exact ⟨rfl, rfl, rfl, rfl, rfl⟩
-    apply pr_sev _ _ rfl
-    · simp [closedW, hnc]
-    · exact h
+    refine pr_sv ?_ (sameView_sev_setSock w sid (.packetCreate p cb) _)
+    refine pr_accStep1 sid _ _ rfl (by simp [closedW, hnc]) hsz rfl rfl rfl ?_ ?_ ?_ h
+    · intro o; exact ⟨o.cb, o.dc, o.cu⟩
+    · intro a
+      obtain ⟨r1, e1, i1⟩ := a.pk
+      obtain ⟨r2, e2, i2⟩ := a.cb
+      obtain ⟨r3, e3, i3⟩ := a.run
+      have h1 := i1 hnc; have h2 := i2 hnc
+      subst h1; subst h2
+      refine ⟨⟨_, ?_, fun _ => rfl⟩, ⟨_, ?_, fun _ => rfl⟩, ⟨r3, ?_, i3⟩, ?_⟩
+      · rw [proj_snoc_self, proj_snoc_self, e1]; simp [fCreatedPkt, fFlushedPkt]
+      · rw [proj_snoc_self, proj_snoc_self, e2]
+        cases cb <;> simp [fCreatedCb, fFlushedCb]
+      · rw [proj_snoc_self, proj_snoc_self, e3]; simp [fFlushedCb, fRanCb]
+      · unfold upgradeCount; rw [proj_snoc_self]; simpa [fUpgrade, upgradeCount] using a.up
+    · intro _ b c hb; cases hb
 
 /-- what does not change when a packet is sent on a session that is not waiting for a drain to close -/
 structure Quiet (w w' : World) : Prop where
@@ -120,16 +154,6 @@ theorem sendPacket_quiet (w : World) (sid : Nat) (p : Pkt) (cb : Option Nat) (hd
 
 /-! ### drain, ready -/
 
-theorem pr_cbs {w0 w : World} (sid : Nat) (cbs : List Nat) (hnc : ¬ closedW w sid) (h : Pres w0 w) :
-    Pres w0 (cbs.foldl (fun w id => w.sev sid (.cb id)) w) := by
-  induction cbs generalizing w with
-  | nil => exact h
-  | cons id rest ih =>
-    simp only [List.foldl_cons]
-    apply ih
-    · simpa [closedW] using hnc
-    · exact pr_sev _ _ rfl hnc h
-
 theorem pr_sockOnDrain {w0 w : World} (sid : Nat) (h : Pres w0 w) : Pres w0 (sockOnDrain w sid) := by
   refine h.trans (fun i => ?_)
   have p : Pres w (sockOnDrain w sid) := by
@@ -140,11 +164,64 @@ theorem pr_sockOnDrain {w0 w : World} (sid : Nat) (h : Pres w0 w) : Pres w0 (soc
       have hnc : (w.sock sid).rs ≠ .closed := fun hc => by
         have := (i.sockOK sid).cb hc
         rw [hs] at this; cases this
-      apply pr_cbs
-      · simp [closedW, hnc]
-      · apply pr_setSock _ _ (Nat.le_refl _) Iff.rfl rfl rfl
-        · intro _ o; exact ⟨fun hc => absurd hc hnc, o.dc⟩
-        · exact Pres.refl _
+      have hsz : sid < w.socks.size := by
+        apply Nat.lt_of_not_le; intro hle
+        rw [sock_oob w sid hle] at hs; cases hs
+      have hfold : cbs.foldl (fun w id => w.sev sid (.cb id)) (w.setSock sid fun s => { s with sentCb := rest }) =
+          (cbs.map SEv.cb).foldl (fun w e => w.sev sid e) (w.setSock sid fun s => { s with sentCb := rest }) := by
+        rw [List.foldl_map]
+      rw [hfold]
+      have hflat : ∀ {α} (f : SEv → List α), (∀ id, f (.cb id) = []) → (cbs.map SEv.cb).flatMap f = [] := by
+        intro α f hf
+        apply List.flatMap_eq_nil_iff.mpr
+        intro x hx
+        obtain ⟨id, _, rfl⟩ := List.mem_map.mp hx
+        exact hf id
+      have hran : ∀ k, ((cbs.map SEv.cb).take k).flatMap fRanCb = cbs.take k := by
+        intro k
+        rw [← List.map_take]
+        induction (cbs.take k) with
+        | nil => rfl
+        | cons a t ih => simp [List.flatMap_cons, fRanCb, ih]
+      have hflatk : ∀ {α} (f : SEv → List α) (k : Nat), (∀ id, f (.cb id) = []) → ((cbs.map SEv.cb).take k).flatMap f = [] := by
+        intro α f k hf
+        apply List.flatMap_eq_nil_iff.mpr
+        intro x hx
+        obtain ⟨id, _, rfl⟩ := List.mem_map.mp (List.mem_of_mem_take hx)
+        exact hf id
+      refine pres_accSteps w sid (cbs.map SEv.cb) _ ?_ (by simp [closedW, hnc]) hsz rfl rfl rfl ?_ ?_ ?_ ?_
+      · intro e he; obtain ⟨id, _, rfl⟩ := List.mem_map.mp he; rfl
+      · intro o; exact ⟨fun hc => absurd hc hnc, o.dc, o.cu⟩
+      · intro a
+        obtain ⟨r1, e1, i1⟩ := a.pk
+        obtain ⟨r2, e2, i2⟩ := a.cb
+        obtain ⟨r3, e3, i3⟩ := a.run
+        have h3 := i3 hnc
+        rw [hs] at h3
+        refine ⟨⟨r1, ?_, i1⟩, ⟨r2, ?_, i2⟩, ⟨rest.flatten, ?_, fun _ => rfl⟩, ?_⟩
+        · rw [proj_append_entries, proj_append_entries, hflat _ (fun _ => rfl), hflat _ (fun _ => rfl)]; simpa using e1
+        · rw [proj_append_entries, proj_append_entries, hflat _ (fun _ => rfl), hflat _ (fun _ => rfl)]; simpa using e2
+        · rw [proj_append_entries, proj_append_entries, hflat _ (fun _ => rfl)]
+          have := hran cbs.length
+          rw [List.take_of_length_le (by simp), List.take_of_length_le (Nat.le_refl _)] at this
+          rw [this, e3, h3]; simp [List.append_assoc]
+        · unfold upgradeCount; rw [proj_append_entries, hflat _ (fun _ => rfl)]; simpa [upgradeCount] using a.up
+      · intro a k
+        obtain ⟨hp, hc, hr, hu⟩ := a.histAt
+        obtain ⟨r3, e3, i3⟩ := a.run
+        have h3 := i3 hnc
+        rw [hs] at h3
+        unfold HistAt
+        refine ⟨?_, ?_, ?_, ?_⟩
+        · rw [proj_append_entries, proj_append_entries, hflatk _ k (fun _ => rfl), hflatk _ k (fun _ => rfl)]; simpa using hp
+        · rw [proj_append_entries, proj_append_entries, hflatk _ k (fun _ => rfl), hflatk _ k (fun _ => rfl)]; simpa using hc
+        · rw [proj_append_entries, proj_append_entries, hflatk fFlushedCb k (fun _ => rfl), hran k, List.append_nil, e3, h3]
+          simp only [List.flatten_cons]
+          exact (List.prefix_append_right_inj _).mpr ((List.take_prefix k cbs).trans (List.prefix_append _ _))
+        · unfold upgradeCount; rw [proj_append_entries, hflatk _ k (fun _ => rfl)]; simpa [upgradeCount] using hu
+      · intro _ k b c hk
+        rw [List.getElem?_map] at hk
+        cases hc : cbs[k]? <;> simp [hc] at hk
   exact p i
 
 theorem pr_trEmitDrain {w0 w : World} (ti : Nat) (h : Pres w0 w) : Pres w0 (trEmitDrain w ti) := by
@@ -166,43 +243,84 @@ theorem pr_trEmitReady {w0 w : World} (ti : Nat) (h : Pres w0 w) : Pres w0 (trEm
 
 /-! ### upgrade -/
 
-theorem pr_doUpgrade {w0 w : World} (sid : Nat) (newTr : Nat) (hnc : ¬ closedW w sid) (h : Pres w0 w) :
-    Pres w0 (doUpgrade w sid newTr) := by
-  unfold doUpgrade
-  try dsimp only
-  have v : SameView w (((((clearTransport (((candCleanup w sid).setTr (candCleanup w sid |>.sock sid).tr fun t =>
-      { t with discarded := true }).setSock sid fun s => { s with upgraded := true }) sid).setSock sid fun s =>
-      { s with tr := newTr })).setTr newTr fun t => { t with role := .current sid })) := by
-    apply sv_setTr
-    apply sv_setSock _ _ _ ⟨rfl, rfl, rfl, rfl, rfl⟩
-    apply sv_clearTransportF
-    apply sv_setSock _ _ _ ⟨rfl, rfl, rfl, rfl, rfl⟩
-    apply sv_setTr
-    exact candCleanup_sameView w sid
-  have core : Pres w0 (flush ((((((clearTransport (((candCleanup w sid).setTr (candCleanup w sid |>.sock sid).tr fun t =>
-      { t with discarded := true }).setSock sid fun s => { s with upgraded := true }) sid).setSock sid fun s =>
-      { s with tr := newTr })).setTr newTr fun t => { t with role := .current sid })).sev sid .upgrade) sid) := by
-    apply pr_flush
-    apply pr_sev _ _ rfl
-    · exact fun hc => hnc ((v.closedW sid).mp hc)
-    · exact pr_sv h v
-  split
-  · exact pr_trClose _ _ core
-  · exact core
+theorem candCleanup_sock (w : World) (sid : Nat) (c : Cand) (hc : (w.sock sid).cand = some c) (hsz : sid < w.socks.size) :
+    (candCleanup w sid).sock sid = { (w.sock sid) with upgrading := false, cand := none } := by
+  unfold candCleanup
+  simp only [hc]
+  rw [sock_setTr, sock_setSock]; simp [hsz]
+
+theorem pr_doUpgrade {w0 w : World} (sid : Nat) (newTr : Nat) (hnc : ¬ closedW w sid) (c : Cand)
+    (hc : (w.sock sid).cand = some c) (h : Pres w0 w) : Pres w0 (doUpgrade w sid newTr) := by
+  refine h.trans (fun i => ?_)
+  have hup : (w.sock sid).upgraded = false := (i.sockOK sid).cu (by rw [hc]; rfl)
+  have hsz : sid < w.socks.size := by
+    apply Nat.lt_of_not_le; intro hle
+    rw [sock_oob w sid hle] at hc; cases hc
+  have p : Pres w (doUpgrade w sid newTr) := by
+    unfold doUpgrade
+    try dsimp only
+    -- up to the switch of the flag
+    have va : SameView w ((candCleanup w sid).setTr (candCleanup w sid |>.sock sid).tr fun t => { t with discarded := true }) := by
+      apply sv_setTr
+      exact candCleanup_sameView w sid
+    have sa : ((candCleanup w sid).setTr (candCleanup w sid |>.sock sid).tr fun t => { t with discarded := true }).sock sid =
+        { (w.sock sid) with upgrading := false, cand := none } := by
+      rw [sock_setTr]; exact candCleanup_sock w sid c hc hsz
+    have za : ((candCleanup w sid).setTr (candCleanup w sid |>.sock sid).tr fun t => { t with discarded := true }).socks.size = w.socks.size := va.size
+    have la : ((candCleanup w sid).setTr (candCleanup w sid |>.sock sid).tr fun t => { t with discarded := true }).slog = w.slog := va.slog
+    generalize ((candCleanup w sid).setTr (candCleanup w sid |>.sock sid).tr fun t => { t with discarded := true }) = wa at va sa za la ⊢
+    have pa : Pres w wa := pr_sv (Pres.refl w) va
+    have hnca : ¬ closedW wa sid := fun hcl => hnc ((va.closedW sid).mp hcl)
+    -- the flag and the entry
+    have pb : Pres w ((wa.setSock sid fun s => { s with upgraded := true }).sev sid .upgrade) := by
+      refine pr_accStep1 sid _ _ rfl hnca (by rw [za]; exact hsz) rfl rfl rfl ?_ ?_ ?_ pa
+      · intro o
+        exact ⟨o.cb, o.dc, fun hd => by rw [sa] at hd; cases hd⟩
+      · intro a
+        obtain ⟨r1, e1, i1⟩ := a.pk
+        obtain ⟨r2, e2, i2⟩ := a.cb
+        obtain ⟨r3, e3, i3⟩ := a.run
+        refine ⟨⟨r1, ?_, i1⟩, ⟨r2, ?_, i2⟩, ⟨r3, ?_, i3⟩, ?_⟩
+        · rw [proj_snoc_self, proj_snoc_self, e1]; simp [fCreatedPkt, fFlushedPkt]
+        · rw [proj_snoc_self, proj_snoc_self, e2]; simp [fCreatedCb, fFlushedCb]
+        · rw [proj_snoc_self, proj_snoc_self, e3]; simp [fFlushedCb, fRanCb]
+        · have hu := a.up
+          rw [sa] at hu
+          simp only [hup] at hu
+          unfold upgradeCount at hu ⊢
+          rw [proj_snoc_self]; simp [fUpgrade]
+          simpa using hu
+      · intro _ b c' hb; cases hb
+    -- the rest of the switch touches nothing the invariant reads
+    have v : SameView (wa.setSock sid fun s => { s with upgraded := true })
+        (((clearTransport (wa.setSock sid fun s => { s with upgraded := true }) sid).setSock sid fun s =>
+          { s with tr := newTr }).setTr newTr fun t => { t with role := .current sid }) := by
+      apply sv_setTr
+      apply sv_setSock _ _ _ ⟨rfl, rfl, rfl, rfl, rfl, rfl, rfl, rfl, id⟩
+      exact clearTransportF_sameView _ _ sid
+    have core : Pres w (flush (((((clearTransport (wa.setSock sid fun s => { s with upgraded := true }) sid).setSock sid fun s =>
+        { s with tr := newTr })).setTr newTr fun t => { t with role := .current sid }).sev sid .upgrade) sid) := by
+      apply pr_flush
+      exact pr_sv pb (sameView_sev_congr v sid .upgrade)
+    split
+    · exact pr_trClose _ _ core
+    · exact core
+  exact p i
 
 theorem pr_candOnPacket {w0 w : World} (sid : Nat) (p : Pkt) (h : Pres w0 w) : Pres w0 (candOnPacket w sid p) := by
   unfold candOnPacket
   split
   · exact h
-  · try dsimp only
+  · rename_i c hc
+    try dsimp only
     split
-    · refine pr_setSockSame _ _ ?_ ?_
-      · intro s; exact ⟨rfl, rfl, rfl, rfl, rfl⟩
-      apply pr_sev_nonfinal _ _ rfl rfl
-      exact pr_trSend _ _ h
+    · refine pr_sv ?_ (sameView_setSock _ _ _ ⟨rfl, rfl, rfl, rfl, rfl, rfl, rfl, rfl, fun _ => ?_⟩)
+      · apply pr_sev_nonfinal _ _ rfl rfl rfl
+        exact pr_trSend _ _ h
+      · rw [sock_sev, sock_trSend, hc]; rfl
     · split
       · rename_i hu
-        exact pr_doUpgrade _ _ hu.2 h
+        exact pr_doUpgrade _ _ hu.2 c hc h
       · apply pr_trClose
         exact pr_candCleanup _ h
 
@@ -224,7 +342,7 @@ theorem pr_sockOnPacket {w0 w : World} (sid : Nat) (p : Pkt) (h : Pres w0 w) : P
         | some d =>
           have := (i.sockOK sid).dc (by rw [hd]; rfl)
           rw [hopen] at this; rcases this with x | x <;> cases x
-      have p1 : Pres w (w.sev sid (.packet p.typ)) := pr_sev _ _ rfl hnc (Pres.refl _)
+      have p1 : Pres w (w.sev sid (.packet p.typ)) := pr_sev _ _ rfl rfl hnc (Pres.refl _)
       split
       · -- ping
         split
@@ -232,20 +350,20 @@ theorem pr_sockOnPacket {w0 w : World} (sid : Nat) (p : Pkt) (h : Pres w0 w) : P
         · have q := sendPacket_quiet ((w.sev sid (.packet p.typ)).setSock sid fun s =>
               { s with pingTimeoutDue := some ((w.sev sid (.packet p.typ)).now + (w.sev sid (.packet p.typ)).o.I + (w.sev sid (.packet p.typ)).o.T) })
               sid { typ := .pong, compress := true } none (by simp [hdc])
-          apply pr_sev _ _ rfl
+          apply pr_sev _ _ rfl rfl
           · unfold closedW; rw [q.rs]; simp [hopen]
           · apply pr_sendPacket
             refine pr_setSockSame _ _ ?_ p1
-            intro s; exact ⟨rfl, rfl, rfl, rfl, rfl⟩
+            intro s; exact ⟨rfl, rfl, rfl, rfl, rfl, rfl, rfl, rfl, by first | exact id | (intro h; cases h)⟩
       · -- pong
         split
         · exact pr_sockOnClose _ _ _ p1
-        · apply pr_sev _ _ rfl
+        · apply pr_sev _ _ rfl rfl
           · simp [closedW, hopen]
           · refine pr_setSockSame _ _ ?_ p1
-            intro s; exact ⟨rfl, rfl, rfl, rfl, rfl⟩
+            intro s; exact ⟨rfl, rfl, rfl, rfl, rfl, rfl, rfl, rfl, by first | exact id | (intro h; cases h)⟩
       · exact pr_sockOnClose _ _ _ p1
-      · apply pr_sev _ _ rfl
+      · apply pr_sev _ _ rfl rfl
         · simpa [closedW] using hnc
         · exact p1
       · exact p1
